@@ -61,6 +61,8 @@ def iter_source(it):
             d = e[2]
             if d.startswith("hashbrown::") and e[3]:
                 m = d.rsplit("::", 1)[1]
+                if m in ("with_hasher", "with_capacity", "with_capacity_and_hasher", "new_in", "with_hasher_in"):
+                    return ("map", e, "into_iter", adaptors)      # a constructor call: the container itself
                 recv = e[3][0]
                 tb = table_of(recv)
                 if tb is not None:
@@ -112,7 +114,8 @@ def iter_base(it):
     return e
 
 
-PASS_THROUGH = ("filter", "take_while", "skip_while", "inspect", "peekable", "fuse", "by_ref", "skip", "take", "step_by", "chain")
+# (`collect` into a Vec that is iterated afterwards hands the same elements on, one for one)
+PASS_THROUGH = ("filter", "take_while", "skip_while", "inspect", "peekable", "fuse", "by_ref", "skip", "take", "step_by", "chain", "collect")
 
 
 def adapted_elem(closures, nextcall):
@@ -654,6 +657,23 @@ class Verdict:
         return None
 
 
+def _carries(v, L, depth=0):
+    """The stored value is the link itself (or an Option / tuple / struct wrapped around it), not something computed from it."""
+    if v == L or v == mk_deref(L):
+        return True
+    if v[0] == "agg" and depth < 3:
+        return any(_carries(fe, L, depth + 1) for _n, fe in v[5])
+    return False
+
+
+def _unit_valued(args):
+    """`map.insert(key, ())`: a map used as a set."""
+    if len(args) < 3:
+        return False
+    v = args[2]
+    return (v[0] == "const" and (v[2] == "()" or v[1] is None and str(v[2]).strip() in ("()", "const ()"))) or (v[0] == "agg" and v[1] == "tuple" and not v[5])
+
+
 def bounded_by_strong(a, box):
     """`min(.., strong(box))`: an amount that cannot exceed the member's own strong count."""
     if a[0] == "call" and a[2] in ("core::cmp::Ord::min", "core::cmp::min") and len(a[3]) == 2:
@@ -973,6 +993,14 @@ class Trace:
         return None
 
     def on_store(self, eng, ev, st):
+        # a link read out of an expanded node's table is parked somewhere by a plain store (a hand-rolled queue: an inline
+        # array, a ring buffer ...): the trace rules only know Vec / VecDeque worklists and cannot follow it
+        for f in st.flags:
+            if f[0] in ("elem_pending", "elem_reg", "elem_acc_pending", "elem_absent") and isinstance(f[1], tuple) and _carries(ev.value, mk_field(f[1], "0", "")) \
+                    and box_part(ev.place) is None and table_of(ev.place) is None:
+                msg = "the trace queues a link in a container of the crate's own making (a plain store at %s:%s), which the worklist rules do not model" % (eng.where(ev.b)["file"], eng.where(ev.b)["line"])
+                if msg not in eng.unfollowed:
+                    eng.unfollowed.append(msg)
         # vec![first] initialisation: remember the key fields of the initial worklist element
         v = ev.value
         if v[0] == "agg" and v[1] == "array" and v[5]:
@@ -990,6 +1018,14 @@ class Trace:
         return None
 
     def on_variant(self, eng, st, inner, v, b):
+        if inner[0] == "call" and inner[2].startswith("hashbrown::HashMap") and inner[2].endswith("::insert") and _unit_valued(inner[3]) and v in ("0", "1"):
+            # `visited.insert(node, ())`: None <=> the node had not been visited
+            if v == "0":
+                for f in st.flags:
+                    if f[0] == "popped" and (inner[3][1] == f[2] or inner[3][1] == mk_field(f[2], "ptr", LINK)):
+                        return add(st, ("vis_guard_ok", f[2]), ("vis_set", mk_deref(inner[3][0])))
+                return add(st, ("seen_new", mk_deref(inner[3][0]), inner[3][1]))
+            return None
         # result of Vec::pop known to be Some: a node is about to be processed
         if inner[0] == "call" and is_pop_call(inner[2]) and v == "1":
             W = mk_deref(inner[3][0])
@@ -1091,7 +1127,7 @@ class Trace:
                 if f[0] == "popped" and (mk_deref(ev.args[1]) == f[2] or ev.args[1] == f[2] or mk_deref(ev.args[1]) == mk_field(f[2], "ptr", LINK)):
                     return add(st, ("vis_test", S, f[2], ev.res))
             return None
-        if ev.op == "insert" and ev.container.endswith("HashSet") and len(ev.args) >= 2:
+        if ev.op == "insert" and (ev.container.endswith("HashSet") or _unit_valued(ev.args)) and len(ev.args) >= 2:
             for f in st.flags:
                 if f[0] == "popped" and (ev.args[1] == f[2] or ev.args[1] == mk_field(f[2], "ptr", LINK)):
                     return add(st, ("vis_ins", S, f[2]), ("vis_set", S))
@@ -1303,6 +1339,9 @@ class Trace:
         return None
 
     def on_assume_call(self, eng, st, c, truth, b):
+        # a visited "set" kept as a map to `()`: `visited.insert(node, ()).is_none()` <=> `HashSet::insert(node)`
+        if c[2].startswith("hashbrown::HashMap") and c[2].endswith("::insert") and _unit_valued(c[3]):
+            return None
         if c[2].startswith("hashbrown::HashSet") and c[2].endswith("::insert") and len(c[3]) >= 2 and truth:
             # `if !visited.insert(node) { continue }`: insert returned true <=> the node was not visited before
             for f in st.flags:
